@@ -1473,6 +1473,69 @@ func runC14(c *Ctx) {
 			}
 		}
 	}
+	// ---- lists built by the library (stages whose size hint is computed from their arguments, results of append, +, reverse …),
+	// compared BEFORE they have been evaluated: = against the literal list of their items is true in both directions, against
+	// a longer / shorter / different literal false, != is the negation, and the answer is the same after the list was evaluated
+	{
+		fgL := newValueFG(true)
+		gen := func(src string) funcGen.Func[value.Value] {
+			f, _, err := fgL.Generate(src, "a")
+			if err != nil {
+				fatal("C14 library lists: %q: %v", src, err)
+			}
+			return f
+		}
+		eqv := func(op int, a, b value.Value) byte { return outBool(r.im.opFn[op].Eval(a, b)) }
+		st := funcGen.NewEmptyStack[value.Value]()
+		for _, src := range []string{"[1, 2, 3].top(5)", "[1, 2, 3].top(3)", "[1, 2, 3].top(2)", "[1, 2, 3].top(0)", "[1, 2, 3].skip(1)", "[1, 2, 3].skip(5)", "[1, 2, 3].top(5).map(e -> e)", "[1, 2, 3].top(5).number((i, e) -> e)",
+			"[1, 2, 3].map(e -> e + a)", "[1, 2, 3].accept(e -> e > a)", "numbers(3)", "numbers(0)", "[1, 2].append(3)", "[1, 2] + [3]", "[1, 2].top(9) + [3].top(9)", "[3, 2, 1].reverse()", "[1, 2, 3].iir(e -> e, (e, p) -> e)",
+			"[1, 2, 3].combine((p, q) -> q)", "[1, 2, 3, 4].combineN(2, w -> w[0]).top(9)", "[[1, 2, 3].top(5), [4].top(2)]", "[1, 1, 2].compact((p, q) -> p = q)", "[1, 2].cross([3], (p, q) -> p)", "[2, 1].order(e -> e).top(7)",
+			"[1, 2, 3].skip(1).top(9).skip(0)", "[1, 2, 3].merge([].top(4), (p, q) -> p < q)"} {
+			f := gen(src)
+			fresh := func() value.Value {
+				v, err := f.Eval(value.Int(0))
+				if err != nil {
+					fatal("C14 library lists: %q: %v", src, err)
+				}
+				return v
+			}
+			var items []value.Value
+			if l, ok := fresh().ToList(); ok {
+				for it, err := range l.Iterate(st) {
+					if err != nil {
+						fatal("C14 library lists: %q: %v", src, err)
+					}
+					items = append(items, it)
+				}
+			}
+			same := value.NewList(items...)
+			longer := value.NewList(append(append([]value.Value{}, items...), value.Int(99))...)
+			var shorter *value.List
+			if len(items) > 0 {
+				shorter = value.NewList(items[:len(items)-1]...)
+			}
+			c.Case("library-list|"+src, true)
+			c.Count("library-list-equality")
+			check := func(what string, other value.Value, want byte) {
+				neg := map[byte]byte{'T': 'F', 'F': 'T'}[want]
+				ab, ba, nab := eqv(opEq, fresh(), other), eqv(opEq, other, fresh()), eqv(opNe, fresh(), other)
+				v := fresh()
+				first := eqv(opEq, v, other)
+				canonGo(v) // evaluates
+				after := eqv(opEq, v, other)
+				if ab != want || ba != want || nab != neg || first != after {
+					c.Violation("eq-library-built-list", fmt.Sprintf("%s against %s: a = b is %c, b = a is %c, a != b is %c, before / after evaluation %c / %c, want %c", src, what, ab, ba, nab, first, after, want),
+						map[string]any{"program": src, "other": what})
+				}
+			}
+			check("the literal list of its items", same, 'T')
+			check("a literal list one item longer", longer, 'F')
+			if shorter != nil {
+				check("a literal list one item shorter", shorter, 'F')
+			}
+			check("another unevaluated instance of itself", fresh(), 'T')
+		}
+	}
 	// ---- the operators are observers: evaluated repeatedly on the SAME operand values (built once) they give the
 	// outcomes they give on fresh operands, and leave both operands as they were
 	for i := 0; i < n; i++ {
